@@ -178,8 +178,15 @@ def wired_cases(rng):
                                 steps.append(dict(s, tenant=ten, auth=hdr(copy.deepcopy(t))))
                 if case[port]["verifier"] is not None:
                     own = case[port]["verifier"]["default"]
-                    for lab, h in rng.sample(invalid_tokens(own, rng), 2):
+                    inv = invalid_tokens(own, rng)
+                    for lab, h in rng.sample(inv, 2) + [x for x in inv if "hmacEmpty" in x[0]]:
+                        # (always) a forged HS* token signed with the zero-length secret: Config.Load turns "no HMAC
+                        # secret" into an empty, non-nil key, which must not enable the HMAC family
                         steps.append(dict(step(port, p, host=host, auth=copy.deepcopy(h)), label=lab))
+                    if port == "upstream":
+                        for t in (L["tenants"] or []):
+                            for lab, h in [x for x in invalid_tokens(t["cfg"], rng) if "hmacEmpty" in x[0]]:
+                                steps.append(dict(step(port, p, host=host, auth=copy.deepcopy(h)), label=lab, tenant=t["id"]))
         if case["admin"]["verifier"] is not None:
             for lab, t in valid_tokens(L["admin"], rng)[:1]:
                 steps.append(dict(step("admin", "/health", query="forward=" + PEER_ID, auth=hdr(copy.deepcopy(t))), label="forward-good"))
